@@ -32,7 +32,12 @@ class Interp(object):
     # raising
     # ------------------------------------------------------------------
     def raise_(self, cls, *args, **attrs):
-        raise PyRaise(VExc(cls, args, attrs))
+        node = getattr(self, 'cur_node', None)
+        where = None
+        if node is not None and self.ctx.frames:
+            where = '%s (raised by the model of an operation)' % where_of(
+                self.ctx.frame.fi, node)
+        raise PyRaise(VExc(cls, args, attrs), where)
 
     # ------------------------------------------------------------------
     # statements
@@ -385,6 +390,12 @@ class Interp(object):
             return models.contains(self, b, a)
         if isinstance(op, ast.NotIn):
             return z3.Not(models.contains(self, b, a))
+        if ctx.spec_mode:
+            # specifications compare boxed values as the integers they hold
+            if isinstance(a, VBox):
+                a = VInt(Val.ival(a.e))
+            if isinstance(b, VBox):
+                b = VInt(Val.ival(b.e))
         if isinstance(a, VBox) or isinstance(b, VBox):
             a = unbox_choose(ctx, a)
             b = unbox_choose(ctx, b)
